@@ -207,8 +207,7 @@ func completeVerdictLoop(errs ssa.Value, site ssa.Instruction) (bool, string) {
 					return false, "an iteration can skip the verdict test"
 				}
 				// site only through the loop exit
-				done := header.Succs[1]
-				if len(done.Preds) != 1 || !(done == site.Block() || done.Dominates(site.Block())) {
+				if !header.Dominates(site.Block()) || blockReaches(site.Block(), header, nil) {
 					return false, "backend call is not confined to the exit of the verdict loop"
 				}
 				return true, ""
@@ -276,8 +275,8 @@ func runR181(c *Ctx) {
 					}
 				} else {
 					// all items: the names must come from a full range over Items()
-					if !fullItemsRange(c, fn, namesArg, params) {
-						why = "instance names are not collected from a complete range over the digests"
+					if !fullItemsRange(c, fn, namesArg, params, a) {
+						why = "the instance names authorized are not collected by a complete, unconditional range over every digest of the set that dominates the authorizer call (some instance names could reach the backend without being authorized)"
 						continue
 					}
 					ok, why = completeVerdictLoop(a, bc)
@@ -292,8 +291,10 @@ func runR181(c *Ctx) {
 }
 
 // fullItemsRange: names derive from GetInstanceName() of X[i] with i a full
-// range index over X = Items() of a digest set parameter.
-func fullItemsRange(c *Ctx, fn *ssa.Function, v ssa.Value, params map[ssa.Value]bool) bool {
+// range index over X = Items() of a digest set parameter, each element's name
+// is recorded on every iteration, and `site` is reachable only through the
+// exit of that loop.
+func fullItemsRange(c *Ctx, fn *ssa.Function, v ssa.Value, params map[ssa.Value]bool, site ssa.Instruction) bool {
 	dig := c.LookupType(digestRel, "Digest")
 	set := c.LookupType(digestRel, "Set")
 	found := false
@@ -306,12 +307,26 @@ func fullItemsRange(c *Ctx, fn *ssa.Function, v ssa.Value, params map[ssa.Value]
 			return true
 		}
 		if isMethodCall(call.Common(), dig, "GetInstanceName") {
-			X, _, ok := rangeElemOf(call.Call.Args[0])
-			if ok {
-				if ic, ok := X.(*ssa.Call); ok && isMethodCall(ic.Common(), set, "Items") && params[ic.Call.Args[0]] {
-					found = true
+			X, idx, ok := rangeElemOf(call.Call.Args[0])
+			if !ok {
+				return false
+			}
+			ic, ok := X.(*ssa.Call)
+			if !ok || !isMethodCall(ic.Common(), set, "Items") || !params[ic.Call.Args[0]] {
+				return false
+			}
+			header := idx.(*ssa.BinOp).Block()
+			// the loop is on every path to the site, and the site is after it
+			if !header.Dominates(site.Block()) || blockReaches(site.Block(), header, nil) {
+				return false
+			}
+			// recorded on every iteration: the block using the name dominates every latch
+			for _, p := range header.Preds {
+				if header.Dominates(p) && !(call.Block() == p || call.Block().Dominates(p)) {
+					return false
 				}
 			}
+			found = true
 		}
 		return false
 	})
@@ -538,6 +553,62 @@ func runR184(c *Ctx) {
 	})
 	if napp == 0 {
 		c.Fail(name, "forward", c.Pos(fn.Pos()), "no instance name is ever forwarded to later members")
+	}
+	// position lists: an entry is either the position in the first member's verdict list or the
+	// same-position entry of the previous position list
+	nidx := 0
+	allInstrs(fn, func(ins ssa.Instruction) {
+		call, ok := ins.(*ssa.Call)
+		if !ok {
+			return
+		}
+		bi, ok := call.Call.Value.(*ssa.Builtin)
+		if !ok || bi.Name() != "append" {
+			return
+		}
+		sl, ok := call.Type().Underlying().(*types.Slice)
+		if !ok || !types.Identical(sl.Elem(), types.Typ[types.Int]) {
+			return
+		}
+		nidx++
+		// the appended element(s): stored into the varargs array
+		okPos := false
+		why := "a position list receives something that is neither a position in the first member's verdict list nor the same-position entry of the previous list"
+		deepSlice(fn, call.Call.Args[1], func(x ssa.Value) bool {
+			switch v := x.(type) {
+			case *ssa.BinOp:
+				// a range index: must range over the first list
+				if isFullRangeIndex(v, ssa.Value(first)) {
+					okPos = true
+				} else if v.Op == token.ADD {
+					why = "a position list receives the loop index of a later member's verdicts instead of the original position (verdicts of later members would be written to the wrong instance name)"
+				}
+				return false
+			case *ssa.UnOp:
+				if v.Op == token.MUL {
+					if ia, ok := v.X.(*ssa.IndexAddr); ok {
+						if _, isIntSlice := ia.X.Type().Underlying().(*types.Slice); isIntSlice {
+							// previous position list at the current loop index of a later member
+							for _, cl := range calls {
+								if cl != first && isFullRangeIndex(ia.Index, ssa.Value(cl)) {
+									okPos = true
+								}
+							}
+							return false
+						}
+					}
+				}
+				return true
+			case *ssa.Call:
+				_, isB := v.Call.Value.(*ssa.Builtin)
+				return isB
+			}
+			return true
+		})
+		c.Check(okPos, name, "position-list", c.Pos(call.Pos()), "positions carried forward refer to the first member's verdict list", why)
+	})
+	if nidx == 0 {
+		c.Fail(name, "position-list", c.Pos(fn.Pos()), "no position bookkeeping found")
 	}
 	_ = fmt.Sprintf
 }
